@@ -19,6 +19,7 @@ type c02path struct {
 	State   int64 `json:"consumer_state"` // -1 absent
 	Seq     []int `json:"seq"`            // publish events: publisher*3+qos
 	Size    int   `json:"payload_size"`
+	FailAt  int   `json:"log_write_fails_during_event"` // -1: never
 }
 
 func c02paths() []c02path {
@@ -56,7 +57,18 @@ func c02paths() []c02path {
 		}
 		for _, d := range depths {
 			for _, s := range seqs(d) {
-				out = append(out, c02path{v.p, v.s, s, 4})
+				out = append(out, c02path{v.p, v.s, s, 4, -1})
+			}
+		}
+	}
+	// a refused log write during one event: what is acknowledged must still be delivered (nothing may be
+	// acknowledged that the log did not take)
+	for _, d := range []int{1, 2, 3} {
+		for _, s := range seqs(d) {
+			for k := 0; k < d; k++ {
+				if s[k]%3 != 0 { // QoS 0 is never acknowledged
+					out = append(out, c02path{10, 9, s, 4, k})
+				}
 			}
 		}
 	}
@@ -64,7 +76,7 @@ func c02paths() []c02path {
 	for _, size := range []int{1, 127, 128, 16383, 16384} {
 		for _, d := range []int{1, 2} {
 			for _, s := range seqs(d) {
-				out = append(out, c02path{0, -1, s, size}, c02path{10, 9, s, size})
+				out = append(out, c02path{0, -1, s, size, -1}, c02path{10, 9, s, size, -1})
 			}
 		}
 	}
@@ -78,9 +90,9 @@ func c02paths() []c02path {
 			}
 		}
 		if vk.Thorough() || p%7 == 0 || edge {
-			out = append(out, c02path{p, int64(p - 1), []int{1, 1, 1}, 4})
+			out = append(out, c02path{p, int64(p - 1), []int{1, 1, 1}, 4, -1})
 			if vk.Thorough() && p%10 == 0 {
-				out = append(out, c02path{p, -1, []int{1, 1, 1}, 4})
+				out = append(out, c02path{p, -1, []int{1, 1, 1}, 4, -1})
 			}
 		}
 	}
@@ -131,9 +143,16 @@ func TestC02Delivery(t *testing.T) {
 						payload += strings.Repeat("x", p.Size-len(payload))
 					}
 					s := sent{topic: fmt.Sprintf("t/%d", k), payload: payload, qos: q, pub: pubc, mid: int32(10 + k)}
+					if k == p.FailAt {
+						w.FailLog(1, true)
+					}
 					pubc.Publish(s.topic, s.payload, q, false, s.mid)
 					all = append(all, s)
 					w.Step()
+					if k == p.FailAt {
+						w.Idle(time.Second) // QoS 2: PUBREC -> PUBREL -> store attempt
+						w.FailLog(1, false)
+					}
 					Observe(w, rep)
 				}
 				w.Idle(30 * time.Second)
